@@ -112,6 +112,19 @@ def check_case(f, rec):
             raise Mismatch("C09:not-found-error", f"{x!r}: expected DecayNotFound, got {type(e).__name__}") from e
         else:
             raise Mismatch("C09:not-found-error", f"{x!r} has no table but build_decay_chains returned")
+    if f["stable_sets"] and f["stable_sets"][0].get("positional"):
+        # the same question put to a parsed file that has no decay table at all
+        rest = dict(f, stmts=[s_ for s_ in f["stmts"] if s_["k"] != "decay"] or [{"k": "alias", "a": "MyZ0", "p": "Z0"}])
+        p0 = make_parser(G.render(rest), ID)
+        for x in list(tables)[:2] + others[:1]:
+            try:
+                p0.build_decay_chains(x)
+            except DecayNotFound:
+                classes.add("not-found-raises(file-without-tables)")
+            except Exception as e:  # noqa: BLE001
+                raise Mismatch("C09:not-found-error", f"{x!r} in a file without decay tables: expected DecayNotFound, got {type(e).__name__}") from e
+            else:
+                raise Mismatch("C09:not-found-error", f"{x!r}: a file without tables, but build_decay_chains returned")
     rec.case(f, nt, sorted(classes), sample=lambda: {"text": text, "stable_sets": f["stable_sets"]})
 
 
